@@ -66,6 +66,50 @@ def lossy_steps(fn: ast.AST, key: ast.expr) -> List[str]:
     return out
 
 
+def projection_only(fn: ast.AST, key: ast.expr, param: str) -> List[str]:
+    """Attribute projections through which `param` reaches the key when it never reaches it as a whole value
+    (e.g. key = tuple(x.formula for x in param)); [] if the parameter (or one of its elements) is in the key as a whole."""
+    from .core import _binding_sources
+
+    binds = _binding_sources(fn)
+    exprs, seen, todo = [], set(), [key]
+    while todo:
+        e = todo.pop()
+        exprs.append(e)
+        for n in ast.walk(e):
+            if isinstance(n, ast.Name) and n.id not in seen:
+                seen.add(n.id)
+                todo.extend(binds.get(n.id, []))
+    aliases = {param}
+    projections: List[str] = []
+    whole = False
+    changed = True
+    while changed:
+        changed = False
+        for e in exprs:
+            for comp in ast.walk(e):
+                if isinstance(comp, (ast.ListComp, ast.SetComp, ast.GeneratorExp, ast.DictComp)):
+                    for g in comp.generators:
+                        # element variables of an iteration over the parameter (or over an attribute/call result of an alias) are aliases of its elements
+                        roots = {x.id for x in ast.walk(g.iter) if isinstance(x, ast.Name)}
+                        if isinstance(g.iter, ast.Name) and g.iter.id in aliases:
+                            for t in ast.walk(g.target):
+                                if isinstance(t, ast.Name) and t.id not in aliases and t.id != "_":
+                                    aliases.add(t.id)
+                                    changed = True
+    for e in exprs:
+        for n in ast.walk(e):
+            if isinstance(n, ast.Name) and n.id in aliases and isinstance(n.ctx, ast.Load):
+                par = getattr(n, "_parent", None)
+                if isinstance(par, ast.Attribute) and par.value is n:
+                    projections.append(f"{n.id}.{par.attr}")
+                elif isinstance(par, ast.comprehension) and par.iter is n:
+                    continue
+                else:
+                    whole = True
+    return [] if whole else sorted(set(projections))
+
+
 def check_memo_keys(ctx, rule: str, relpaths, min_sites: int = 1) -> int:
     n_sites = 0
     for rel in relpaths:
@@ -102,6 +146,22 @@ def check_memo_keys(ctx, rule: str, relpaths, min_sites: int = 1) -> int:
                                   f"{cache} is a class attribute, i.e. one dict shared by all instances, but the cached computation reads the instance state {not_in_key} which is not part of the key: "
                                   "a second instance (e.g. an emitter for another grammar) gets the results computed for the first one",
                                   "instance state read by the computation is part of the key")
+                    # a key that contains only attribute projections of a parameter while the computation gets the parameter whole
+                    key_nodes = set()
+                    for kn in ast.walk(key):
+                        key_nodes.add(id(kn))
+                    for p_ in sorted(in_key):
+                        proj = projection_only(fn, key, p_)
+                        if not proj:
+                            continue
+                        passed_whole = [x for x in walk_local(fn) if isinstance(x, ast.Name) and x.id == p_ and isinstance(x.ctx, ast.Load) and isinstance(getattr(x, "_parent", None), ast.Call)
+                                        and x in x._parent.args and not (isinstance(x._parent.func, ast.Name) and x._parent.func.id in ("len", "isinstance", "type"))]
+                        if passed_whole:
+                            from .core import Unrecognised
+
+                            raise Unrecognised(rule, f"{rel}:{q}", f"the memo {cache} is keyed only by the projections {proj} of the parameter `{p_}`, but the cached computation receives `{p_}` whole "
+                                               f"(`{src(passed_whole[0]._parent)[:70]}`): whether these projections determine the result (e.g. the closed parts of substitution trees, not only the ids of "
+                                               "their open leaves) cannot be decided statically; two arguments that agree on the projections would share one cache entry")
                     lossy = lossy_steps(fn, key)
                     ctx.check(not lossy, rule + "-lossy", f"{rel}:{q}", f"{cache}[{src(key)[:40]}] injective", site(node),
                               f"the memo key is built with the non-injective step(s) {lossy[:3]}: two different arguments that normalise to the same key share one cache entry, "
